@@ -157,6 +157,15 @@ func appendFlags(w io.Writer, forBuildHash bool) {
 	if flagControlFlow && forBuildHash {
 		io.WriteString(w, " -ctrlflow")
 	}
+	if flagLiterals && forBuildHash {
+		// With -literals, whether a variable is set via -ldflags=-X changes how its
+		// package is obfuscated at compile time, yet the go command does not
+		// rebuild packages when only linker flags change.
+		for _, name := range linkerVariableNames() {
+			io.WriteString(w, " -X=")
+			io.WriteString(w, name)
+		}
+	}
 	if literals.TestObfuscator != "" && forBuildHash {
 		io.WriteString(w, literals.TestObfuscator)
 	}
